@@ -98,7 +98,7 @@ def describe(tier):
             f"{len(ENC)} encoders {[e.name for e in ENC]}, each with its documented domain, an own encoder and the expected (type, label). "
             f"ALL stacks of height 1..{HEIGHT[tier]} x {len(PAYLOADS)} payloads (URL+exe, IP, e-mail+domain, Windows path, 600-byte padded text) x {len(EMBED)} embeddings x depth "
             f"limits {{height, height+1, 10}} (and limit 1 followed by an in-place scan_node(tree) and a second flatten(), which must equal the flatten() of a copy of the expanded tree), ALL stacks of height {H_PARTIAL[tier]} x 2 payloads x 2 embeddings at depth 10, every single encoder repeated 1..11 times, and every encoder around payloads of 1 kB .. 16 kB (thorough .. 70 kB, crossing 65536) with the indicators at the end "
-            "(depth limit 10 bites at layer 11). After-failure histories: every stack of height 1..2 is scanned once on a scanner whose extra user decoder raises (RuntimeError / KeyboardInterrupt) on the innermost plaintext, the caller catches it, and the same scanner must then peel the same document completely. Isolation histories: for EVERY entry i of the default registry (and list operations clear/reverse/del/append/insert/slice-assign) another default scanner's public `decoders` list is customised in place, then a brand-new default Multidecoder() must peel every height-1 stack and 3 height-2 stacks. Stacks whose intermediate text leaves the next encoder's domain, and embeddings that are not neutral for the "
+            "(depth limit 10 bites at layer 11). Two-stacks documents: the same encoded script twice in one document, once under one more (call-form) layer, in both orders at depth limits 2 / 3 / 10 - each copy peeled as far as its own depth allows. After-failure histories: every stack of height 1..2 is scanned once on a scanner whose extra user decoder raises (RuntimeError / KeyboardInterrupt) on the innermost plaintext, the caller catches it, and the same scanner must then peel the same document completely. Isolation histories: for EVERY entry i of the default registry (and list operations clear/reverse/del/append/insert/slice-assign) another default scanner's public `decoders` list is customised in place, then a brand-new default Multidecoder() must peel every height-1 stack and 3 height-2 stacks. Stacks whose intermediate text leaves the next encoder's domain, and embeddings that are not neutral for the "
             "outermost encoder (bare base64/hex next to LF-joined words; cmd with trailing text), are pruned and counted. Oracle = the stack itself: a chain "
             "of nested nodes, outermost first, node i has value = plaintext i and the type/label of layer i, the outermost covers exactly the blob; "
             "with depth >= height+1 every indicator found by scanning the plaintext payload alone is found beneath the innermost node; flatten() of the "
@@ -119,7 +119,7 @@ def plan(tier, seed):
     units += [("repeat", e.name) for e in ENC if e.name not in ("psbytes",)]
     units += [("sizes", tier, e.name) for e in ENC]
     units += [("isolation", i, ISO_PARTS) for i in range(ISO_PARTS)]
-    units += [("after-failure", tier, e.name) for e in ENC]
+    units += [("after-failure", tier, e.name) for e in ENC] + [("twostacks", tier, e.name) for e in ENC]
     units += core.interp_axis([("repeat", n) for n in ("b64", "hex", "utf16", "xml", "unesc", "concat+", "rev", "repl", "cmd^1")])
     return units
 
@@ -258,9 +258,9 @@ def _default_md():
     return _DEF
 
 
-def check(rec, stack, pi, ei, depth, tier_w):
+def check(rec, stack, pi, ei, depth, tier_w, embed=None):
     payload = PAYLOADS[pi]
-    pre, suf = EMBED[ei]
+    pre, suf = embed if embed is not None else EMBED[ei]
     b = build(stack, payload)
     if b is None:
         rec.note("pruned: intermediate text outside the next encoder's domain")
@@ -271,6 +271,8 @@ def check(rec, stack, pi, ei, depth, tier_w):
         return
     data = pre + blob + suf
     w = {"kind": "stack", "stack": list(stack), "payload": pi, "embed": ei, "depth": depth}
+    if embed is not None:
+        w["embed_bytes"] = [pre, suf]
     if _OVERRIDE is not None:
         w["after"] = _OVERRIDE[0]
     size = len(stack) * 100000 + len(data)
@@ -317,6 +319,8 @@ def check(rec, stack, pi, ei, depth, tier_w):
                           f"stack {names}: indicators of the plaintext payload not found beneath the innermost node: {core.short(missing, 200)}", size)
     # flatten of a tree that is expanded further in place (scan with a small limit, flatten, scan_node on the same tree, flatten again):
     # the text is a function of the tree as it is NOW
+    if embed is not None:
+        return  # the surroundings hold another encoded blob: flatten() substitutes that one too (checked when it is the subject)
     if depth < len(layers) + 1 and _OVERRIDE is None:
         ok, _f1 = rec.guard("C02.total", w, size, tree.flatten)
         ok2, _ = rec.guard("C02.total", w, size, md().scan_node, tree, 10)
@@ -377,6 +381,28 @@ def run_unit(unit, rec):
         rec.sample({"innermost": innermost, "height": h, "cases": n})
     elif kind == "sizes":
         run_sizes(rec, unit[1], unit[2])
+    elif kind == "twostacks":
+        # the same encoded script twice in ONE document, once under one more layer than the other, so that the same decoded value sits at two
+        # nesting depths; with a depth limit that binds for the deeper copy only, each copy is still peeled as far as ITS depth allows
+        inner = unit[2]
+        n = 0
+        for outer in [e.name for e in ENC if not e.bare and e.name not in ("psbytes", "cmd^1", "cmd^2")]:
+            bs, bd = build((inner,), PAYLOADS[0]), build((inner, outer), PAYLOADS[0])
+            if bs is None or bd is None or ENCI[inner].to_end:
+                continue  # (a cmd layer runs to the end of the text: it cannot be followed by a second blob)
+            S, D = bs[0], bd[0]
+            for first, second, which in ((D, S, "deep-first"), (S, D, "shallow-first")):
+                pre0, mid, suf0 = b"xx ", b" ;; ", b" yy"
+                for depth in (2, 3, 10):
+                    emb_first, emb_second = (pre0, mid + second + suf0), (pre0 + first + mid, suf0)
+                    if which == "deep-first":
+                        check(rec, (inner, outer), 0, 0, depth, None, embed=emb_first)
+                        check(rec, (inner,), 0, 0, depth, None, embed=emb_second)
+                    else:
+                        check(rec, (inner,), 0, 0, depth, None, embed=emb_first)
+                        check(rec, (inner, outer), 0, 0, depth, None, embed=emb_second)
+                    n += 2
+        rec.sample({"family": "same-script-at-two-depths-in-one-document", "innermost": inner, "cases": n})
     elif kind == "after-failure":
         n = 0
         for exc_name in ("RuntimeError", "KeyboardInterrupt"):
@@ -502,6 +528,9 @@ def run_sizes(rec, tier, name):
 def replay(w, rec):
     if w.get("kind") == "size":
         run_sizes(rec, "thorough" if w["n"] > 16385 else "quick", w["encoder"])
+        return
+    if w.get("kind") == "stack" and w.get("embed_bytes"):
+        check(rec, tuple(w["stack"]), w["payload"], w["embed"], w["depth"], None, embed=tuple(w["embed_bytes"]))
         return
     if w.get("kind") == "stack" and str(w.get("after", "")).startswith("scan-aborted-by-"):
         run_after_failure(rec, tuple(w["stack"]), w["after"].split("-")[3])
